@@ -152,6 +152,35 @@ fn main() {
                         }
                     }
                 }
+                "plan" => {
+                    // plan_deploy_group on every worker table of 1..3 workers over the four statuses x {spare capacity, full}, pipelines pinned to each
+                    // worker / to an unknown id / unpinned, four pipelines per request (so that round-robin visits every candidate)
+                    use varpulis_cluster::pipeline_group::PipelineGroupSpec;
+                    let stats = ["Registering", "Ready", "Unhealthy", "Draining"];
+                    let mut count = 0usize;
+                    for n in 1..=3usize { for code in 0..8usize.pow(n as u32) {
+                        let mut c = varpulis_cluster::coordinator::Coordinator::new();
+                        let mut x = code; let mut avail: Vec<bool> = Vec::new();
+                        for i in 0..n { let s = stats[x % 4]; let full = (x / 4) % 2 == 1; x /= 8;
+                            let mut w = mk(&i.to_string(), s, 0, 0); if full { w.capacity.pipelines_running = w.capacity.max_pipelines }
+                            avail.push(w.is_available()); c.workers.insert(w.id.clone(), w); }
+                        for pin in 0..=(n + 1) {
+                            let affinity = if pin < n { Some(format!("w{pin}")) } else if pin == n { Some("nobody".to_string()) } else { None };
+                            let spec = PipelineGroupSpec { name: "g".into(), routes: vec![], pipelines: (0..4).map(|j| PipelinePlacement { name: format!("p{j}"), source: "stream S = E".into(), worker_affinity: affinity.clone(), replicas: 1, partition_key: None }).collect() };
+                            count += 1;
+                            match c.plan_deploy_group(&spec) {
+                                Err(_) => if avail.iter().any(|a| *a) && bad.len() < 3 { bad.push(format!("planning failed although a worker is available (table code {code}, {n} workers, affinity {affinity:?})")) },
+                                Ok(plan) => for t in &plan.tasks {
+                                    let idx: Option<usize> = t.worker_id.0.strip_prefix('w').and_then(|x| x.parse().ok());
+                                    let ok = idx.map_or(false, |i| i < n && avail[i]);
+                                    if !ok && bad.len() < 3 { bad.push(format!("pipeline {} planned on {:?}, which is not an available worker (statuses/full code {code}, {n} workers, affinity {affinity:?})", t.pipeline_name, t.worker_id)) }
+                                    if pin < n && avail[pin] && t.worker_id.0 != format!("w{pin}") && bad.len() < 3 { bad.push(format!("pipeline pinned to available worker w{pin} planned on {:?}", t.worker_id)) }
+                                },
+                            }
+                        }
+                    } }
+                    if bad.is_empty() { println!("OK workers plan: {count} plans") }
+                }
                 _ => { eprintln!("unknown workers op"); std::process::exit(2) }
             }
             if bad.is_empty() { println!("OK workers {op}") } else { println!("REPRODUCED workers {op}: {}", bad.join("; ")) }
